@@ -13,7 +13,9 @@ import (
 	"github.com/goatcms/goatcore/app/modules/commonm"
 	"github.com/goatcms/goatcore/app/modules/ocm"
 	"github.com/goatcms/goatcore/app/modules/pipelinem"
+	"github.com/goatcms/goatcore/app/modules/commonm/commservices"
 	"github.com/goatcms/goatcore/app/modules/pipelinem/pipservices"
+	"github.com/goatcms/goatcore/app/modules/pipelinem/pipservices/namespaces"
 	"github.com/goatcms/goatcore/app/modules/terminalm"
 	"github.com/goatcms/goatcore/app/terminal"
 	"github.com/goatcms/goatcore/varutil"
@@ -29,6 +31,7 @@ type simApp struct {
 	boot   app.Bootstrap
 	events []probeEvent
 	seq    int
+	spawned int
 }
 
 type probeEvent struct {
@@ -91,6 +94,53 @@ func newSimApp(script string, seed int64) *simApp {
 			} else {
 				simrt.Yield()
 			}
+			return nil
+		}),
+		// spawn starts a task through the runner on the command's scope, as pip:run does, and
+		// returns at once: the rest of the script runs while the spawned task is still working
+		mk("spawn", func(ctx app.IOContext) error {
+			id, ms := arg(ctx)
+			var deps struct {
+				Runner pipservices.Runner `dependency:"PipRunner"`
+			}
+			if err := sa.mapp.DependencyProvider().InjectTo(&deps); err != nil {
+				panic(harnessTrouble{"inject PipRunner: " + err.Error()})
+			}
+			sa.spawned++
+			body := fmt.Sprintf("begin --id=%s\nslowwork --id=%s --ms=%d\nend --id=%s\n", id, id, ms, id)
+			var opt struct {
+				FailID string `command:"?failid"`
+			}
+			_ = ctx.Scope().InjectTo(&opt)
+			err := deps.Runner.Run(pipservices.Pip{
+				Context: pipservices.PipContext{
+					In: gio.NewInput(strings.NewReader(body)), Out: gio.NewNilOutput(), Err: gio.NewNilOutput(),
+					CWD: ctx.IO().CWD(), Scope: ctx.Scope(),
+				},
+				Name: fmt.Sprintf("spawned%d", sa.spawned), Namespaces: namespaces.NewNamespaces(pipservices.NamasepacesParams{}), Sandbox: "self",
+				Lock: commservices.LockMap{}, Wait: nil,
+			})
+			if err == nil && opt.FailID != "" {
+				// ... and the spawning command then marks its scope as failed (an error appended to
+				// the scope, the command itself returns nil) while the spawned task is in the
+				// middle of its work
+				simrt.Sleep(time.Millisecond)
+				sa.log("fail", opt.FailID)
+				ctx.Scope().AppendError(fmt.Errorf("probe command spawn --failid=%s", opt.FailID))
+			}
+			return err
+		}),
+		// slowwork is work that also reports when it is over: a spawned task that is still in
+		// the middle of it when its surroundings fail shows up as a late "worked" event
+		mk("slowwork", func(ctx app.IOContext) error {
+			id, ms := arg(ctx)
+			sa.log("work", id)
+			if ms > 0 {
+				simrt.Sleep(time.Duration(ms) * time.Millisecond)
+			} else {
+				simrt.Yield()
+			}
+			sa.log("worked", id)
 			return nil
 		}),
 		// onerror registers a listener for the scope's error event that takes simulated time:
